@@ -219,7 +219,11 @@ fn bases() -> Vec<(&'static str, M)> {
     some.b = vec![true];
     let mut pop = populated();
     pop.e.clear();
-    vec![("empty", M::default()), ("some", some), ("populated", pop)]
+    // a NAME.QUOTE left pending by whatever ran before, and a binding: a top-level run starts from the state it is given
+    let mut quoted = some.clone();
+    quoted.quote = true;
+    quoted.bindings.insert("A".into(), Tree::I(7));
+    vec![("empty", M::default()), ("some", some), ("populated", pop), ("quote-pending", quoted)]
 }
 
 pub fn programs_family(ctx: &mut Ctx) {
